@@ -110,7 +110,7 @@ Proof.
 Qed.
 
 (* the discipline the theorem assumes is kept by every faulty run and every crashed prefix *)
-Theorem one_index_kept_by_faults w n now o plan st : one_index_store st ->
+Theorem one_index_kept_by_faults_thm w n now o plan st : one_index_store st ->
   one_index_store (fst (fst (run_fault plan 0 (handler w n now o) st))).
 Proof. intros H. rewrite rf_store. apply (handler_back_sound w n now o plan st H). Qed.
 Lemma prefix_ok {A} QG QA (p : prog A) : forall k st, saves_ok QG QA p -> store_ok QG QA st -> store_ok QG QA (fst (run_prefix k p st)).
@@ -119,7 +119,7 @@ Proof.
   destruct k; [exact H|]. destruct S as [Sc Sk]. pose proof (exec_ok QG QA c st Sc H) as H'.
   destruct (exec c st) as [st' r]. cbn in *. apply IH; auto.
 Qed.
-Theorem one_index_kept_by_crashes w n now o k st : one_index_store st ->
+Theorem one_index_kept_by_crashes_thm w n now o k st : one_index_store st ->
   one_index_store (fst (run_prefix k (handler w n now o) st)).
 Proof.
   intros H. apply one_index_store_ok. apply prefix_ok; [apply handler_sok|apply one_index_store_ok, H].
